@@ -82,12 +82,8 @@ func c06Stmt(cmd, arg string, c int) string {
 	}
 }
 
-func runC06(tier string) int {
-	r := harness.NewRun("C06", "exploration", tier, budget(tier, 50*time.Second, 12*time.Minute))
-	maxSlots, rotations := 4, []int{0, 3, 5}
-	if tier == "thorough" {
-		maxSlots, rotations = 5, []int{0, 1, 2, 3, 4, 5, 6, 7}
-	}
+// c06Enumerate visits every file of the C06 family with <= maxSlots inline arguments.
+func c06Enumerate(r *harness.Run, maxSlots int, rotations []int, visit func(data []datum, dist []int, rot, clash int)) int {
 	nD := uint64(len(c06Data))
 	// owner distributions of N slots over 3 owners, each owner <= 3 slots, owners used in order
 	completed := 0
@@ -119,12 +115,26 @@ func runC06(tier string) int {
 				data[i] = c06Data[x%nD]
 				x /= nD
 			}
-			c06Eval(r, data, dist, rot, clash)
+			visit(data, dist, rot, clash)
 		})
 		if done {
 			completed = N
 		}
 	}
+	return completed
+}
+
+// c04Tap, when set, receives every generated file of the C06 / C08 families instead of their own oracle
+// (C04 re-enumerates those families for its closure clauses).
+var c04Tap func(fp *fileProgram)
+
+func runC06(tier string) int {
+	r := harness.NewRun("C06", "exploration", tier, budget(tier, 50*time.Second, 12*time.Minute))
+	maxSlots, rotations := 4, []int{0, 3, 5}
+	if tier == "thorough" {
+		maxSlots, rotations = 5, []int{0, 1, 2, 3, 4, 5, 6, 7}
+	}
+	completed := c06Enumerate(r, maxSlots, rotations, func(data []datum, dist []int, rot, clash int) { c06Eval(r, data, dist, rot, clash) })
 	if completed < maxSlots {
 		r.NotExhaustive(fmt.Sprintf("completed files with <= %d inline arguments of planned <= %d", completed, maxSlots))
 	}
@@ -230,6 +240,16 @@ func c06Eval(r *harness.Run, data []datum, dist []int, rot, clash int) {
 		cc.AutoVarCommands[c] = parser.AutoVarCommand{VarName: "VAR_RESULT"}
 	}
 	opts := comp.Opts{Optimize: true, Cmd: cc, Switches: map[string]string{"PV": "SEL"}}
+	if c04Tap != nil {
+		if !expectError {
+			data := map[string]bool{"Map": true}
+			if userName != "" {
+				data[userName] = true
+			}
+			c04Tap(&fileProgram{Desc: fmt.Sprintf("C06 file dist=%v rot=%d clash=%d", dist, rot, clash), Src: src, Opts: opts, Owners: c06Owners, UserLabels: map[string]bool{}, DataLabels: data, External: map[string]bool{}})
+		}
+		return
+	}
 	res := comp.Compile(src, opts)
 	r.Add("evaluations", 1)
 	if shared {
